@@ -80,6 +80,58 @@ func (t *tokInfo) lexemeOf(e ast.Expr) (string, bool) {
 	return s, ok
 }
 
+// tableValues: e names a package-level map or array of the parser package whose initialiser is a keyed literal with
+// constant Token values; returns their lexemes.
+func (t *tokInfo) tableValues(e ast.Expr) ([]string, bool) {
+	id, ok := unparen(e).(*ast.Ident)
+	if !ok {
+		return nil, false
+	}
+	v, ok := t.info.Uses[id].(*types.Var)
+	if !ok || v.Parent() != v.Pkg().Scope() {
+		return nil, false
+	}
+	cl, ok := t.c.VarInit(v).(*ast.CompositeLit)
+	if !ok {
+		return nil, false
+	}
+	var out []string
+	for _, el := range cl.Elts {
+		kv, ok := el.(*ast.KeyValueExpr)
+		if !ok {
+			return nil, false
+		}
+		lx, ok := t.lexemeOf(kv.Value)
+		if !ok {
+			return nil, false
+		}
+		out = append(out, lx)
+	}
+	// the table must not be written anywhere else
+	for _, f := range t.c.Pkg("parser").Syntax {
+		written := false
+		ast.Inspect(f, func(n ast.Node) bool {
+			if as, ok := n.(*ast.AssignStmt); ok {
+				for _, l := range as.Lhs {
+					if ix, ok := unparen(l).(*ast.IndexExpr); ok {
+						if li, ok := unparen(ix.X).(*ast.Ident); ok && t.info.Uses[li] == types.Object(v) {
+							written = true
+						}
+					}
+					if li, ok := unparen(l).(*ast.Ident); ok && t.info.Uses[li] == types.Object(v) {
+						written = true
+					}
+				}
+			}
+			return true
+		})
+		if written {
+			return nil, false
+		}
+	}
+	return out, len(out) > 0
+}
+
 // isPToken: e is <parser>.token
 func (t *tokInfo) isPToken(e ast.Expr) bool {
 	sel, ok := unparen(e).(*ast.SelectorExpr)
@@ -791,10 +843,22 @@ func ruleTabOps(c *Ctx, r *R) {
 					obj := pinfo.Uses[id]
 					ast.Inspect(lv.fn.Body, func(x ast.Node) bool {
 						as, ok := x.(*ast.AssignStmt)
-						if !ok || len(as.Lhs) != 1 || len(as.Rhs) != 1 {
+						if !ok || len(as.Lhs) < 1 || len(as.Lhs) > 2 || len(as.Rhs) != 1 {
 							return true
 						}
-						if l, ok := as.Lhs[0].(*ast.Ident); !ok || pinfo.Uses[l] != obj {
+						if l, ok := as.Lhs[0].(*ast.Ident); !ok || (pinfo.Uses[l] != obj && pinfo.Defs[l] != obj) {
+							return true
+						}
+						if ix, ok := unparen(as.Rhs[0]).(*ast.IndexExpr); ok && t.isPToken(ix.Index) {
+							// a lookup table indexed by the current token: the values of its literal
+							if vals, ok := t.tableValues(ix.X); ok {
+								for _, v := range vals {
+									assignOps[v] = as.Pos()
+								}
+								return true
+							}
+						}
+						if len(as.Lhs) != 1 {
 							return true
 						}
 						if lx, ok := t.lexemeOf(as.Rhs[0]); ok {
